@@ -31,7 +31,7 @@ UNITS = {
     "interrupts": {"tpl": "interrupts.rs", "props": ["C18", "C09"],
                    "fn_props": {**PRELUDE_FNS, "int_13|store_input_line": ["C18", "C09"]}},
     "lemmas": {"tpl": "lemmas.rs", "props": ["C05", "C07", "C12"],
-               "fn_props": {**PRELUDE_FNS, "lemma_rep.*": ["C07"], "lemma_push.*|lemma_sp_casts|bridge_p.*": ["C05"], "lemma_contiguous|lemma_len": ["C12"]}},
+               "fn_props": {**PRELUDE_FNS, "lemma_rep.*": ["C07"], "lemma_push.*|lemma_sp_casts|lemma_word|bridge_p.*|get_word_reg_val|set_word_reg_val": ["C05"], "lemma_contiguous|lemma_len": ["C12"]}},
     "transfer": {"tpl": "transfer.rs", "props": ["C08", "C14", "C04", "C12", "C18", "C09", "C10"],
                  "fn_props": {**PRELUDE_FNS, "it_call|it_ret": ["C08", "C14", "C09", "C10"], "lemma_nested.*|lemma_ret_resumes.*|bridge_.*": ["C08"], "it_jumps_loops": ["C08", "C14", "C09", "C10"],
                               "it_int": ["C14", "C18", "C09", "C10"], "it_byte_label|it_word_label": ["C04", "C12", "C14", "C09", "C10"], "get_type": ["C08", "C14"]}},
